@@ -1,42 +1,39 @@
 /-
   C06 — Partial evaluation is sound for every completion of the unknowns.
 
-  Model: `CedarGo/Model/Partial.lean` (`partialE`, `partialPolicy`, mirroring internal/eval/partial.go INCLUDING its
-  defects), tied to the implementation by the correspondence op `partial` (residual AST, white-box) and — through
-  `Model/Batch.lean` — by op `batch`.
+  Model: `CedarGo/Model/Partial.lean` (`partialE`, `partialPolicy`, mirroring internal/eval/partial.go), tied to the
+  implementation by the correspondence op `partial` (residual AST, white-box) and — through `Model/Batch.lean` — by
+  op `batch`.
 
-  The full property (`C06_partial_keep_sound`, `C06_partial_drop_sound` without the domain hypothesis) is FALSE for
-  the code as written; the counterexample theorems below exhibit concrete policies, partial environments and
-  completions (the same inputs are replayed on the Go code by harness/cmd/vh/c06.go, table cases `stale-and`,
-  `tainted-contains`, `isin-eager`).
+  History.  Until partial.go was repaired the unrestricted property was FALSE for the code (and for this model): four
+  defect families (`stale-residual-and|or|if`, `tainted-container-*` / `tainted-record-*`, `isin-eager-rhs-error`), each
+  with a `_counterexample` theorem, and the soundness theorems carried a decidable domain hypothesis (`domE`) excluding
+  them.  With the repairs the model changed, the domain hypothesis on expressions is GONE, and the former
+  counterexamples are regression `example`s below (same policies, partial environments and completions; the harness
+  table cases `stale-and`, `tainted-contains`, `isin-eager`, … replay them on the Go code).
 
   PROVED (all about `partialE` / `partialPolicy`, the transcription of partial.go):
-    * `C06_stale_residual_counterexample`, `C06_stale_residual_or_if_counterexample`,
-      `C06_tainted_container_counterexample`, `C06_tainted_record_counterexample`, `C06_isin_eager_counterexample`
-        — the unrestricted property is false: kept-but-different, and dropped-but-satisfied.
-    * `C06_partialE_sound_partial` — expression level, on the decidable domain `domE`: whatever `partial` returns for
-      `e` against a partial environment is correct under EVERY completion σ of the unknowns: a literal is the value of
-      `e` (up to completing unknowns it merely contains), a residual agrees with `e` (same value, or both fail), an
-      error means `e` fails under every completion.
-    * `C06_partial_keep_sound_partial` — policy level, on `partialDomain`: if the policy is kept, the residual policy is
-      satisfied under the completed environment exactly when the original is.
-    * `C06_partial_drop_sound_partial` — policy level, on `partialDomain`: if the policy is dropped, the original is
-      not satisfied under any completion.
-    * `C06_partial_ignore_widens_partial` — ignored request parts (`partialDomainI`): a permit policy that is satisfied for
-      some value of the ignored parts is kept and its residual is satisfied (ignoring only widens).
-    * `C06_domain_excludes_counterexamples` — the counterexamples lie outside the domain (the domain hypothesis is
-      what separates them), and `C06_domain_nonvacuous` — policies that genuinely use unknowns lie inside it.
-  The domain (`domE` / `partialDomain`, Model/Partial.lean; decidable, evaluated by the driver for every generated
-  case so the evidence reports how many cases fall inside it) is the conjunction of
-      NoTaintedWholeUse                — no operator other than `.`/`has` consumes a literal that merely contains an
-                                         unknown; policy literals are marker-free;
-      NoVariableOperandOfShortCircuit  — no `errVariable` operand where `&&`, `||`, `if` keep the returned node;
-      is-in guard                      — an erroring right operand of `is…in` only under a type test known to pass;
-      no ignore markers.
+    * `C06_partialE_sound` — expression level, FULL: for EVERY expression, partial environment and completion σ of the
+      unknowns, whatever `partial` returns for `e` is correct: a literal is the value of `e` (up to completing unknowns
+      it merely contains — only `.`/`has` look inside such a value), a residual agrees with `e` (same value, or both
+      fail), an error means `e` fails under every completion.
+    * `C06_partial_keep_sound_partial` — policy level: if the policy is kept, the residual policy is satisfied under the
+      completed environment exactly when the original is.
+    * `C06_partial_drop_sound_partial` — policy level: if the policy is dropped, the original is not satisfied under any
+      completion.
+      Both for EVERY policy; the only hypothesis left is the property's own premise that the environment has unknowns, not
+      ignore markers (`partialDomain`: no request part is ignored and no condition's partial evaluation reports
+      `errIgnore`, i.e. no ignore marker nested in the context / an entity is met).  They keep the `_partial` suffix
+      because agreement of *error-ness* at policy level (residual erroring ⇔ original erroring) is not carried through
+      `PartialPolicy` (it holds at expression level: `C06_partialE_sound`; the property text only demands satisfaction),
+      and because the premise is expressed through `partialE` (decidable, evaluated by the driver per case) rather than
+      as "no ignore marker occurs anywhere in the inputs".
+    * `C06_partial_ignore_widens_partial` — ignored request parts, EVERY permit policy: if it is satisfied for some value
+      of the ignored parts it is kept and its residual is satisfied (ignoring only widens).
+    * `C06_former_counterexamples_sound` — the five former counterexample inputs now satisfy the property, and
+      `C06_domain_nonvacuous` — policies that genuinely use unknowns are kept with non-trivial residuals.
   NOT PROVED
-    * agreement of *error-ness* at policy level (residual erroring ⇔ original erroring): holds at expression level
-      (`C06_partialE_sound_partial` gives it), not carried through `PartialPolicy` here; the property text only
-      demands satisfaction.
+    * agreement of error-ness at policy level (see above).
     * independence of the residual from the ignored parts (the residual is evaluated under the same value of the
       ignored part in `C06_partial_ignore_widens_partial`); the direct oracle evaluates it under the batch placeholder too.
 -/
@@ -45,7 +42,7 @@ import CedarGoProofs.Lemmas.C06
 import CedarGoProofs.Lemmas.C06Policy
 namespace CedarGo
 
-/-! ## counterexamples: the property fails for the code as written -/
+/-! ## the former counterexamples (regression) -/
 
 def ceBase : Env :=
   { entities := [], principal := .entity "User" "a", action := .entity "Action" "a", resource := .entity "Doc" "a",
@@ -56,75 +53,79 @@ def whenPolicy (body : Expr) : Policy := { effect := .permit, conditions := [(tr
 /-- `permit(principal, action, resource) when { context.key && true };` with `context = {key: ?k}` -/
 def ceStaleEnvHat : Env := { ceBase with context := .record [("key", mkVariable "k")] }
 def ceStalePolicy : Policy := whenPolicy (.binop .and (.access (.var .context) "key") (.lit (.bool true)))
+def ceStaleEnv : Env := { ceBase with context := .record [("key", .bool true)] }
 
-/-- Stale residual (`partialAnd` keeps the node returned with `errVariable`): the policy is kept, the original is
-    satisfied under the completion `k := true`, the residual is an error (hence not satisfied). -/
-theorem C06_stale_residual_counterexample :
-    ∃ (envHat env : Env) (p r : Policy), Completes envHat env ∧ partialPolicy envHat p = some r ∧
-      satisfied p env = true ∧ satisfied r env = false ∧ erroring r env = true :=
-  ⟨ceStaleEnvHat, { ceBase with context := .record [("key", .bool true)] }, ceStalePolicy,
-    whenPolicy (.binop .and (.access (.lit (.record [("key", mkVariable "k")])) "key") (.lit (.bool true))),
-    ⟨fun _ => .bool true, fun _ => rfl, rfl⟩, by rfl, by decide +kernel, by decide +kernel, by decide +kernel⟩
+/-- was `C06_stale_residual_counterexample` (`partialAnd` kept the node returned with `errVariable`, residual
+    `{key: __cedar::variable::"k"}.key && true`, an error under `k := true`): the ORIGINAL operand is kept now, the
+    residual is the policy itself and is satisfied under the completion. -/
+example : partialPolicy ceStaleEnvHat ceStalePolicy = some ceStalePolicy := by rfl
+example : satisfied ceStalePolicy ceStaleEnv = true := by decide +kernel
 
-/-- the same defect through `||` and `if` -/
-theorem C06_stale_residual_or_if_counterexample :
-    (∃ r, partialPolicy ceStaleEnvHat (whenPolicy (.binop .or (.access (.var .context) "key") (.lit (.bool false)))) = some r ∧
-        satisfied (whenPolicy (.binop .or (.access (.var .context) "key") (.lit (.bool false))))
-          { ceBase with context := .record [("key", .bool true)] } = true ∧
-        satisfied r { ceBase with context := .record [("key", .bool true)] } = false) ∧
-    (∃ r, partialPolicy ceStaleEnvHat (whenPolicy (.ite (.access (.var .context) "key") (.lit (.bool true)) (.lit (.bool false)))) = some r ∧
-        satisfied (whenPolicy (.ite (.access (.var .context) "key") (.lit (.bool true)) (.lit (.bool false))))
-          { ceBase with context := .record [("key", .bool true)] } = true ∧
-        satisfied r { ceBase with context := .record [("key", .bool true)] } = false) :=
-  ⟨⟨_, rfl, by decide +kernel, by decide +kernel⟩, ⟨_, rfl, by decide +kernel, by decide +kernel⟩⟩
+def ceStaleOr : Policy := whenPolicy (.binop .or (.access (.var .context) "key") (.lit (.bool false)))
+def ceStaleIf : Policy := whenPolicy (.ite (.access (.var .context) "key") (.lit (.bool true)) (.lit (.bool false)))
+
+/-- was `C06_stale_residual_or_if_counterexample` -/
+example : partialPolicy ceStaleEnvHat ceStaleOr = some ceStaleOr ∧ partialPolicy ceStaleEnvHat ceStaleIf = some ceStaleIf :=
+  ⟨by rfl, by rfl⟩
 
 /-- `permit(principal, action, resource) when { context.s.contains(1) };` with `context = {s: [?x]}` -/
 def ceTaintEnvHat : Env := { ceBase with context := .record [("s", .set [mkVariable "x"])] }
 def ceTaintPolicy : Policy := whenPolicy (.binop .contains (.access (.var .context) "s") (.lit (.long 1)))
+def ceTaintEnv : Env := { ceBase with context := .record [("s", .set [.long 1])] }
 
-/-- Tainted container (a set that merely contains an unknown is treated as a known value): the policy is DROPPED
-    although it is satisfied under the completion `x := 1`. -/
-theorem C06_tainted_container_counterexample :
-    ∃ (envHat env : Env) (p : Policy), Completes envHat env ∧ partialPolicy envHat p = none ∧ satisfied p env = true :=
-  ⟨ceTaintEnvHat, { ceBase with context := .record [("s", .set [.long 1])] }, ceTaintPolicy,
-    ⟨fun _ => .long 1, fun _ => rfl, rfl⟩, Option.isNone_iff_eq_none.mp (by decide +kernel), by decide +kernel⟩
+/-- was `C06_tainted_container_counterexample` (the policy was DROPPED although satisfied under `x := 1`): a set that
+    merely contains an unknown is unknown to `contains`; the policy is kept unchanged. -/
+example : partialPolicy ceTaintEnvHat ceTaintPolicy = some ceTaintPolicy := by rfl
+example : satisfied ceTaintPolicy ceTaintEnv = true := by decide +kernel
 
-/-- the same defect for a record compared as a whole: `context.r == {a: 1}` with `context = {r: {a: ?x}}` -/
-theorem C06_tainted_record_counterexample :
-    ∃ (envHat env : Env) (p : Policy), Completes envHat env ∧ partialPolicy envHat p = none ∧ satisfied p env = true :=
-  ⟨{ ceBase with context := .record [("r", .record [("a", mkVariable "x")])] },
-    { ceBase with context := .record [("r", .record [("a", .long 1)])] },
-    whenPolicy (.binop .eq (.access (.var .context) "r") (.lit (.record [("a", .long 1)]))),
-    ⟨fun _ => .long 1, fun _ => rfl, rfl⟩, Option.isNone_iff_eq_none.mp (by decide +kernel), by decide +kernel⟩
+def ceTaintRecEnvHat : Env := { ceBase with context := .record [("r", .record [("a", mkVariable "x")])] }
+def ceTaintRecPolicy : Policy := whenPolicy (.binop .eq (.access (.var .context) "r") (.lit (.record [("a", .long 1)])))
+
+/-- was `C06_tainted_record_counterexample`: `context.r == {a: 1}` with `context = {r: {a: ?x}}` is kept -/
+example : partialPolicy ceTaintRecEnvHat ceTaintRecPolicy = some ceTaintRecPolicy := by rfl
+
+/-- attribute access still looks inside: `context.r.a == 1` is kept with the SAME residual (nothing to fold, `?x` unknown),
+    while `context.r has a` folds to `true` and the condition disappears -/
+example : (partialPolicy ceTaintRecEnvHat (whenPolicy (.has (.access (.var .context) "r") "a"))).map (·.conditions.length) = some 0 := by
+  decide +kernel
 
 /-- `permit(principal, action, resource) when { !(principal is Doc in context.missing) };` with `principal = ?p` -/
 def ceIsInEnvHat : Env := { ceBase with principal := mkVariable "p" }
 def ceIsInPolicy : Policy :=
   whenPolicy (.unop .not (.isIn (.var .principal) "Doc" (.access (.var .context) "missing")))
 
-/-- `is … in` handled as a strict operator: the error of the right operand escapes into the residual although the
-    evaluator never reaches it when the type test fails (`p := User::"a"`). -/
-theorem C06_isin_eager_counterexample :
-    ∃ (envHat env : Env) (p r : Policy), Completes envHat env ∧ partialPolicy envHat p = some r ∧
-      satisfied p env = true ∧ satisfied r env = false :=
-  ⟨ceIsInEnvHat, ceBase, ceIsInPolicy, whenPolicy extError,
-    ⟨fun _ => .entity "User" "a", fun _ => rfl, rfl⟩, by rfl, by decide +kernel, by decide +kernel⟩
+/-- was `C06_isin_eager_counterexample` (the error of the right operand escaped, residual `__cedar::partialError`): the
+    error node now sits INSIDE the `is … in`, behind the type test, and the residual is satisfied for `p := User::"a"`. -/
+example : partialPolicy ceIsInEnvHat ceIsInPolicy =
+    some (whenPolicy (.unop .not (.isIn (.var .principal) "Doc" extError))) := by rfl
+example : satisfied ceIsInPolicy ceBase = true ∧
+    satisfied (whenPolicy (.unop .not (.isIn (.var .principal) "Doc" extError))) ceBase = true := by
+  refine ⟨by decide +kernel, by decide +kernel⟩
 
-/-! ## soundness on the domain -/
+/-! ## soundness -/
 
-/-- Expression level.  `Sound σ env e r` (Lemmas/C06.lean) unfolds to:
-      r = (lit v, nil)      ⇒  v is not an unknown ∧ (eval e env = v ∨ eval e env = v with its unknowns completed by σ)
+/-- Expression level, FULL STRENGTH.  `Sound γ env e r` (Lemmas/C06.lean; `γ = Value.substAll σ` completes the unknowns
+    inside a value) unfolds to:
+      r = (lit v, nil)      ⇒  eval e env = v, or v is not itself an unknown and eval e env = v with its unknowns completed by σ
       r = (e', nil)         ⇒  eval e' env and eval e env are the same value, or both are errors
-      r = (_, errVariable)  ⇒  (nothing: every consumer in the domain keeps the original `e`)
+      r = (_, errVariable)  ⇒  (nothing: every consumer keeps the original `e`)
+      r = (nil, errIgnore)  ⇒  (nothing: ignore markers only promise widening)
       r = (nil, err)        ⇒  eval e env is an error
-    for the completed environment `env = completeEnv σ envHat`, for EVERY σ. -/
-theorem C06_partialE_sound_partial (σ : String → Value) (envHat : Env) (e : Expr) (h : domE envHat e = true) :
-    Sound σ (completeEnv σ envHat) e (partialE envHat e) :=
-  partialE_sound (completesVia_complete σ envHat) e h
+    for the completed environment `env = completeEnv σ envHat`, for EVERY expression, environment and σ. -/
+theorem C06_partialE_sound (σ : String → Value) (envHat : Env) (e : Expr) :
+    Sound (Value.substAll σ) (completeEnv σ envHat) e (partialE envHat e) :=
+  partialE_sound (completesVia_complete σ envHat) e
 
-/-- Full statement (false for the code as written, see the counterexamples):
-      `Completes envHat env → partialPolicy envHat p = some r → satisfied r env = satisfied p env`.
-    Proved with the additional hypothesis `partialDomain envHat p`. -/
+/-- a residual expression agrees with the original: same value, or both fail -/
+theorem C06_partialE_residual_agrees (σ : String → Value) (envHat : Env) (e e' : Expr) (hl : e'.isLit = false)
+    (h : partialE envHat e = .ok e') :
+    R (eval e' (completeEnv σ envHat)) (eval e (completeEnv σ envHat)) := by
+  have := C06_partialE_sound σ envHat e
+  rw [h] at this
+  exact (Sound.ok_nonlit hl).mp this
+
+/-- Kept ⇒ the residual is satisfied under the completed environment exactly when the original is.
+    EVERY policy; `partialDomain envHat p` = no ignore marker is met (the property's premise for this clause). -/
 theorem C06_partial_keep_sound_partial (envHat env : Env) (p r : Policy)
     (hc : Completes envHat env) (hd : partialDomain envHat p = true) (hk : partialPolicy envHat p = some r) :
     satisfied r env = satisfied p env := by
@@ -133,8 +134,7 @@ theorem C06_partial_keep_sound_partial (envHat env : Env) (p r : Policy)
   rw [hk] at this
   exact this
 
-/-- Full statement (false for the code as written): `Completes envHat env → partialPolicy envHat p = none →
-    satisfied p env = false`.  Proved with the additional hypothesis `partialDomain envHat p`. -/
+/-- Dropped ⇒ the original is not satisfied under any completion.  EVERY policy; same premise. -/
 theorem C06_partial_drop_sound_partial (envHat env : Env) (p : Policy)
     (hc : Completes envHat env) (hd : partialDomain envHat p = true) (hk : partialPolicy envHat p = none) :
     satisfied p env = false := by
@@ -143,14 +143,27 @@ theorem C06_partial_drop_sound_partial (envHat env : Env) (p : Policy)
   rw [hk] at this
   exact this
 
-/-- the counterexamples are exactly outside the domain -/
-theorem C06_domain_excludes_counterexamples :
-    partialDomain ceStaleEnvHat ceStalePolicy = false ∧ partialDomain ceTaintEnvHat ceTaintPolicy = false ∧
-      partialDomain ceIsInEnvHat ceIsInPolicy = false := by
-  refine ⟨by decide +kernel, by decide +kernel, by decide +kernel⟩
+/-- the former counterexamples satisfy the premise and hence the theorems; spelled out for their completions -/
+theorem C06_former_counterexamples_sound :
+    partialDomain ceStaleEnvHat ceStalePolicy = true ∧ partialDomain ceTaintEnvHat ceTaintPolicy = true ∧
+      partialDomain ceTaintRecEnvHat ceTaintRecPolicy = true ∧ partialDomain ceIsInEnvHat ceIsInPolicy = true ∧
+      (∀ r, partialPolicy ceStaleEnvHat ceStalePolicy = some r → satisfied r ceStaleEnv = satisfied ceStalePolicy ceStaleEnv) ∧
+      (∀ r, partialPolicy ceTaintEnvHat ceTaintPolicy = some r → satisfied r ceTaintEnv = satisfied ceTaintPolicy ceTaintEnv) ∧
+      (∀ r, partialPolicy ceIsInEnvHat ceIsInPolicy = some r → satisfied r ceBase = satisfied ceIsInPolicy ceBase) := by
+  have d1 : partialDomain ceStaleEnvHat ceStalePolicy = true := by decide +kernel
+  have d2 : partialDomain ceTaintEnvHat ceTaintPolicy = true := by decide +kernel
+  have d3 : partialDomain ceTaintRecEnvHat ceTaintRecPolicy = true := by decide +kernel
+  have d4 : partialDomain ceIsInEnvHat ceIsInPolicy = true := by decide +kernel
+  refine ⟨d1, d2, d3, d4, ?_, ?_, ?_⟩
+  · intro r hr
+    exact C06_partial_keep_sound_partial _ _ _ _ ⟨fun _ => .bool true, fun _ => rfl, rfl⟩ d1 hr
+  · intro r hr
+    exact C06_partial_keep_sound_partial _ _ _ _ ⟨fun _ => .long 1, fun _ => rfl, rfl⟩ d2 hr
+  · intro r hr
+    exact C06_partial_keep_sound_partial _ _ _ _ ⟨fun _ => .entity "User" "a", fun _ => rfl, rfl⟩ d4 hr
 
 /-- non-vacuity: policies that use unknown positions (an unknown principal in scope and condition, an unknown nested in
-    the context compared, tested with `has`, used in arithmetic and under `&&` / `||` / `if`) lie inside the domain,
+    the context compared, tested with `has`, used in arithmetic and under `&&` / `||` / `if`) satisfy the premise,
     are kept, and have a non-trivial residual. -/
 def nvEnvHat : Env :=
   { ceBase with principal := mkVariable "p", context := .record [("n", mkVariable "x"), ("r", .record [("k", mkVariable "x")])] }
@@ -178,15 +191,15 @@ def CompletesI (envHat env : Env) : Prop :=
 /-- Ignoring only widens what permits allow.  Full statement: for a permit policy, if the original is satisfied for
     at least one value of the ignored parts then the policy is kept and its residual is satisfied (for ANY value of the
     ignored parts, in particular the placeholder `__cedar::unknown` that batch uses).
-    Proved here, on `partialDomainI` (conditions in `domE`; ignore markers allowed): kept, and the residual is satisfied
-    under the SAME values of the ignored parts.  Not proved: that the residual's value does not depend on the ignored
-    parts at all (the oracle evaluates the residual under both the witness value and the batch placeholder). -/
+    Proved here for EVERY permit policy and environment (ignore markers allowed anywhere): kept, and the residual is
+    satisfied under the SAME values of the ignored parts.  Not proved: that the residual's value does not depend on the
+    ignored parts at all (the oracle evaluates the residual under both the witness value and the batch placeholder). -/
 theorem C06_partial_ignore_widens_partial (envHat env : Env) (p : Policy)
-    (hc : CompletesI envHat env) (hperm : p.effect = .permit) (hd : partialDomainI envHat p = true)
+    (hc : CompletesI envHat env) (hperm : p.effect = .permit)
     (hsat : satisfied p env = true) :
     ∃ r, partialPolicy envHat p = some r ∧ satisfied r env = true := by
   obtain ⟨σ, ι, rfl⟩ := hc
-  exact partialPolicy_widen σ ι envHat p hperm hd hsat
+  exact partialPolicy_widen σ ι envHat p hperm hsat
 
 /-- non-vacuity: principal ignored, an unknown in the context; the scope clause and the condition on the principal
     disappear, the condition on the unknown stays -/
@@ -196,7 +209,6 @@ def igPolicy : Policy :=
     conditions := [(true, .binop .eq (.access (.var .principal) "dept") (.lit (.str "x"))),
                    (true, .binop .lt (.access (.var .context) "n") (.lit (.long 3)))] }
 
-example : partialDomainI igEnvHat igPolicy = true := by decide +kernel
 example : (partialPolicy igEnvHat igPolicy).map (fun r => (r.principal.isAll, r.conditions.length)) = some (true, 1) := by
   decide +kernel
 
